@@ -50,10 +50,20 @@ Definition tymod_eqb (a b : tymod) : bool :=
   match a, b with TySa, TySa => true | TyDialect x, TyDialect y => str_eqb x y | _, _ => false end.
 Definition tytok_eqb (a b : tytok) : bool :=
   tymod_eqb (ty_mod a) (ty_mod b) && strs_eqb (ty_path a) (ty_path b) && pyexprs_eqb (ty_args a) (ty_args b).
+Definition pint_eqb (a b : pint) : bool := Bool.eqb (fst a) (fst b) && str_eqb (snd a) (snd b).
+Definition opint_eqb := option_eqb pint_eqb.
+Definition identity_eqb (a b : identity) : bool :=
+  option_eqb Bool.eqb (id_always a) (id_always b) && option_eqb Bool.eqb (id_on_null a) (id_on_null b)
+  && opint_eqb (id_start a) (id_start b) && opint_eqb (id_increment a) (id_increment b) && opint_eqb (id_minvalue a) (id_minvalue b)
+  && opint_eqb (id_maxvalue a) (id_maxvalue b) && option_eqb Bool.eqb (id_nominvalue a) (id_nominvalue b)
+  && option_eqb Bool.eqb (id_nomaxvalue a) (id_nomaxvalue b) && option_eqb Bool.eqb (id_cycle a) (id_cycle b)
+  && opint_eqb (id_cache a) (id_cache b) && option_eqb Bool.eqb (id_order a) (id_order b).
 Definition sdefault_eqb (a b : sdefault) : bool :=
   match a, b with
   | SdStr x, SdStr y | SdText x, SdText y => str_eqb x y
   | SdComputed x p, SdComputed y q => str_eqb x y && option_eqb Bool.eqb p q
+  | SdIdentity x, SdIdentity y => identity_eqb x y
+  | SdFetched, SdFetched => true
   | _, _ => false
   end.
 Definition ostr_eqb := option_eqb str_eqb.
@@ -96,13 +106,15 @@ Definition fkop_eqb (a b : fkop) : bool :=
   && ostr_eqb (f_referent_schema a) (f_referent_schema b) && ostr_eqb (f_onupdate a) (f_onupdate b)
   && ostr_eqb (f_ondelete a) (f_ondelete b) && ostr_eqb (f_initially a) (f_initially b)
   && obool_eqb (f_deferrable a) (f_deferrable b) && obool_eqb (f_use_alter a) (f_use_alter b) && ostr_eqb (f_match a) (f_match b).
+Definition ixkw_eqb (a b : ixkw) : bool :=
+  ostr_eqb (k_using a) (k_using b) && ostr_eqb (k_where a) (k_where b) && obool_eqb (k_conc a) (k_conc b).
 Definition tbl_op_eqb (a b : tbl_op) : bool :=
   match a, b with
   | OAddColumn x, OAddColumn y => column_eqb x y
   | ODropColumn x, ODropColumn y => ident_eqb x y
   | OAlterColumn x, OAlterColumn y => altercol_eqb x y
-  | OCreateIndex n e u i, OCreateIndex n' e' u' i' => cname_eqb n n' && list_eqb ixexpr_eqb e e' && obool_eqb u u' && obool_eqb i i'
-  | ODropIndex n i st, ODropIndex n' i' st' => cname_eqb n n' && obool_eqb i i' && Bool.eqb st st'
+  | OCreateIndex n e u i k, OCreateIndex n' e' u' i' k' => cname_eqb n n' && list_eqb ixexpr_eqb e e' && obool_eqb u u' && obool_eqb i i' && ixkw_eqb k k'
+  | ODropIndex n i st k, ODropIndex n' i' st' k' => cname_eqb n n' && obool_eqb i i' && Bool.eqb st st' && ixkw_eqb k k'
   | OCreateUnique n c d i, OCreateUnique n' c' d' i' => cname_eqb n n' && idents_eqb c c' && obool_eqb d d' && ostr_eqb i i'
   | OCreateFk x, OCreateFk y => fkop_eqb x y
   | ODropConstraint n t, ODropConstraint n' t' => cname_eqb n n' && oident_eqb t t'
@@ -115,6 +127,8 @@ Definition member_eqb (a b : ident * option ident * tbl_op) : bool :=
 Definition top_op_eqb (a b : top_op) : bool :=
   match a, b with
   | TCreateTable x, TCreateTable y => table_eqb x y
+  | TExecute x, TExecute y => str_eqb x y
+  | TOpaque, TOpaque => true
   | TDropTable n s i t, TDropTable n' s' i' t' => ident_eqb n n' && oident_eqb s s' && obool_eqb i i' && Bool.eqb t t'
   | TOp t s o, TOp t' s' o' => member_eqb (t, s, o) (t', s', o')
   | TModify t s l, TModify t' s' l' => ident_eqb t t' && oident_eqb s s' && list_eqb member_eqb l l'
@@ -135,7 +149,11 @@ Definition model_C08 (i:c08_in) : c08_out :=
   let ev := eval_stmts c st in
   mkOut (Some st) ev (match ev with Some l => ops_eqb l (expected c ops) | None => false end).
 
+(* an input that contains an operation outside the modelled universe carries no model statement: there the comparison is
+   vacuous and only the decider speaks (such an input is never in the class: can_top TOpaque = false) *)
+Definition is_opaque (o:top_op) : bool := match o with TOpaque => true | _ => false end.
 Definition corr_C08 (i:c08_in) (o:c08_out) : bool :=
+  existsb is_opaque (snd i) ||
   let m := model_C08 i in
   option_eqb (list_eqb pystmt_eqb) (o_parsed m) (o_parsed o)
   && option_eqb ops_eqb (o_exec m) (o_exec o)
@@ -151,8 +169,8 @@ Definition tcons_name (k:tcons) : cname :=
   match k with CPk _ n | CUq _ n _ _ | CCk _ n => n | CFk _ _ n _ _ _ _ _ _ => n end.
 Definition tbl_op_names (o:tbl_op) : list cname :=
   match o with
-  | OCreateIndex n _ _ _ | OCreateUnique n _ _ _ | ODropConstraint n _ => [n]
-  | ODropIndex n _ st =>      (* an index the convention leaves alone: its plain name is as final as a conv() one *)
+  | OCreateIndex n _ _ _ _ | OCreateUnique n _ _ _ | ODropConstraint n _ => [n]
+  | ODropIndex n _ st _ =>      (* an index the convention leaves alone: its plain name is as final as a conv() one *)
       [if st then n else match n with Plain i => Conv (i_s i) | x => x end]
   | OCreateFk f => [f_name f]
   | _ => []
@@ -160,7 +178,7 @@ Definition tbl_op_names (o:tbl_op) : list cname :=
 Definition top_names (o:top_op) : list cname :=
   match o with
   | TCreateTable t => map tcons_name (t_cons t)
-  | TDropTable _ _ _ _ => []
+  | TDropTable _ _ _ _ | TExecute _ | TOpaque => []
   | TOp _ _ o => tbl_op_names o
   | TModify _ _ ops => flat_map (fun m => tbl_op_names (snd m)) ops
   end.
@@ -218,8 +236,8 @@ Definition can_tbl_op (c:cfg) (tn:ident) (schema:option ident) (o:tbl_op) : bool
   | OAddColumn x => can_column c x
   | ODropColumn i => can_ident i
   | OAlterColumn a => can_alter c a
-  | OCreateIndex n e u _ => can_cname n && forallb can_ixexpr e && negb (is_none u)
-  | ODropIndex n _ st => can_cname n && st
+  | OCreateIndex n e u _ _ => can_cname n && forallb can_ixexpr e && negb (is_none u)
+  | ODropIndex n _ st _ => can_cname n && st
   | OCreateUnique n cols d i => can_cname n && forallb can_ident cols && can_ostr i
   | OCreateFk f => can_cname (f_name f) && can_ident (f_referent f) && forallb can_ident (f_local f) && forallb can_ident (f_remote f)
                    && oident_eqb schema (option_map (fun x => mkId x None) (f_source_schema f))
@@ -230,6 +248,8 @@ Definition can_top (c:cfg) (o:top_op) : bool :=
   match o with
   | TCreateTable t => can_table c t
   | TDropTable n s _ ty => can_ident n && can_oident s && negb ty
+  | TExecute _ => true
+  | TOpaque => false
   | TOp tn s o => can_tbl_op c tn s o
   | TModify tn s ops =>
       can_ident tn && match s with Some i => can_ident i | None => true end
@@ -251,7 +271,7 @@ Definition tbl_op_ty_ok (o:tbl_op) : bool :=
 Definition top_ty_ok (o:top_op) : bool :=
   match o with
   | TCreateTable t => forallb col_ty_ok (t_cols t)
-  | TDropTable _ _ _ _ => true
+  | TDropTable _ _ _ _ | TExecute _ | TOpaque => true
   | TOp _ _ o => tbl_op_ty_ok o
   | TModify _ _ ops => forallb (fun m => tbl_op_ty_ok (snd m)) ops
   end.
@@ -267,7 +287,11 @@ Definition wf_cname (n:cname) : bool := match n with NoName => true | Plain i =>
 Definition wf_ty (t:tytok) : bool :=
   forallb valid_ident (ty_path t) && match ty_mod t with TySa => true | TyDialect d => valid_ident d end && forallb wf_expr (ty_args t).
 Definition wf_oty (t:option tytok) : bool := match t with Some x => wf_ty x | None => true end.
-Definition wf_sd (d:sdefault) : bool := match d with SdStr s | SdText s | SdComputed s _ => valid_strb s end.
+Definition wf_opint (x:option pint) : bool := match x with Some p => valid_digits (snd p) | None => true end.
+Definition wf_identity (i:identity) : bool :=
+  wf_opint (id_start i) && wf_opint (id_increment i) && wf_opint (id_minvalue i) && wf_opint (id_maxvalue i) && wf_opint (id_cache i).
+Definition wf_sd (d:sdefault) : bool :=
+  match d with SdStr s | SdText s | SdComputed s _ => valid_strb s | SdIdentity i => wf_identity i | SdFetched => true end.
 Definition wf_osd (d:option sdefault) : bool := match d with Some x => wf_sd x | None => true end.
 Definition wf_column (x:column) : bool := wf_id (c_name x) && wf_ty (c_type x) && wf_osd (c_default x) && wf_ostr (c_comment x).
 Definition wf_tcons (k:tcons) : bool :=
@@ -288,14 +312,15 @@ Definition wf_alter (a:altercol) : bool :=
 Definition wf_fk (f:fkop) : bool :=
   wf_cname (f_name f) && wf_id (f_referent f) && forallb wf_id (f_local f) && forallb wf_id (f_remote f) && wf_ostr (f_source_schema f)
   && wf_ostr (f_referent_schema f) && wf_ostr (f_onupdate f) && wf_ostr (f_ondelete f) && wf_ostr (f_initially f) && wf_ostr (f_match f).
+Definition wf_ixkw (k:ixkw) : bool := wf_ostr (k_using k) && wf_ostr (k_where k).
 Definition wf_tbl_op (tn:ident) (schema:option ident) (o:tbl_op) : bool :=
   wf_id tn && wf_oid schema &&
   match o with
   | OAddColumn x => wf_column x
   | ODropColumn i => wf_id i
   | OAlterColumn a => wf_alter a
-  | OCreateIndex n e _ _ => wf_cname n && forallb wf_ixexpr e
-  | ODropIndex n _ _ => wf_cname n
+  | OCreateIndex n e _ _ k => wf_cname n && forallb wf_ixexpr e && wf_ixkw k
+  | ODropIndex n _ _ k => wf_cname n && wf_ixkw k
   | OCreateUnique n cols _ i => wf_cname n && forallb wf_id cols && wf_ostr i
   | OCreateFk f => wf_fk f
   | ODropConstraint n t => wf_cname n && wf_oid t
@@ -306,6 +331,8 @@ Definition wf_top (o:top_op) : bool :=
   match o with
   | TCreateTable t => wf_table t
   | TDropTable n s _ _ => wf_id n && wf_oid s
+  | TExecute sql => valid_strb sql
+  | TOpaque => true
   | TOp tn s o => wf_tbl_op tn s o
   | TModify tn s ops => wf_id tn && wf_oid s && forallb (fun m => wf_tbl_op (fst (fst m)) (snd (fst m)) (snd m)) ops
   end.
